@@ -14,12 +14,178 @@ HARNESSES = [
     kani.H("c15_hist_empty_bounds", "empty bound list is rejected", "-", 100, functions=FUNCS),
 ]
 ASSUME = ["bit-identical `_sum` across different batchings is not demanded (float addition is not associative)",
-          "matcher precedence (DistributionBuilder) and the rolling summary window are not covered by this check yet; DDSketch quantile accuracy is not applicable (transcendental floats)"]
+          "the rolling summary window is not covered by this check; DDSketch quantile accuracy is not applicable (transcendental floats)"]
+
+
+ASSUME_E3 = ["E3 (matcher precedence): DistributionBuilder::{new,get_distribution,get_distribution_type} with two bucket overrides of symbolic kind (Full/Prefix/Suffix) and symbolic patterns of 1-2 characters, "
+             "a name of 3 characters, global buckets present or not; HashMap iteration order both ways; slice::sort_by as a stable sort driven by the real comparison closure; "
+             "str::starts_with / ends_with / == and String::cmp by their meaning over the characters"]
+
+
+def precedence(e3):
+    import z3
+    import _e3
+    from mirsmt import sym, models, check, models_str as MS, models_coll as MC
+    from mirsmt.sym import Ptr, Agg, Enum, Native, Fork, UNIT, bv, Opaque, Script
+    P = _e3.program(["metrics-exporter-prometheus"])
+    mk = P.enums["Matcher"]
+    new_b = P.find("DistributionBuilder", "new")
+    get_b = P.find("DistributionBuilder", "get_distribution")
+    ty_b = P.find("DistributionBuilder", "get_distribution_type")
+    ORD = {"Less": 0xFFFFFFFFFFFFFFFF, "Equal": 0, "Greater": 1}
+    P.enums["Ordering"] = ["Relaxed", "Release", "Acquire", "AcqRel", "SeqCst"]
+
+    def ordering(lt, eq):
+        return Enum(z3.If(lt, bv(ORD["Less"]), z3.If(eq, bv(0), bv(1))), {}, "CmpOrdering")
+
+    def cmp_items(a, b):
+        """lexicographic comparison of two character sequences -> (less, equal)"""
+        lt, eq = z3.BoolVal(False), z3.BoolVal(True)
+        for x, y in zip(a, b):
+            lt = z3.Or(lt, z3.And(eq, z3.ULT(x, y)))
+            eq = z3.And(eq, x == y)
+        if len(a) < len(b):
+            lt = z3.Or(lt, eq)
+            eq = z3.BoolVal(False)
+        elif len(a) > len(b):
+            eq = z3.BoolVal(False)
+        return lt, eq
+
+    def m_string_cmp(eng, ctx, f, path, args, dty):
+        lt, eq = cmp_items(MS.as_items(eng, ctx, args[0]), MS.as_items(eng, ctx, args[1]))
+        return ordering(lt, eq)
+
+    def m_isize_cmp(eng, ctx, f, path, args, dty):
+        a, b_ = MC.load(eng, ctx, args[0]), MC.load(eng, ctx, args[1])
+        return ordering(a < b_ if z3.is_int(a) else (a.as_long() < b_.as_long() if sym.is_concrete(a) and sym.is_concrete(b_) and False else z3.ULT(a, b_) if False else a < b_), a == b_)
+
+    cmp_body = [b for b in P.by_last["cmp"] if "common.rs" in b.name and b.args and "Matcher" in b.args[0][1]][0]
+
+    def m_matcher_cmp(eng, ctx, f, path, args, dty):
+        def script(c):
+            r = yield ("callv", cmp_body, list(args))
+            return r
+        return Script(script)
+
+    def m_sort_by(eng, ctx, f, path, args, dty):
+        vp = args[0]
+        v = MC.load(eng, ctx, vp)
+        clo = args[1]
+        elems = list(v.data)
+
+        def script(c):
+            cells = yield ("effect", lambda c_: [MC.new_cell(c_, x, "sortelem") for x in elems])
+            order = []
+            for i in range(len(elems)):          # stable insertion sort driven by the real comparison
+                pos = len(order)
+                for j in range(len(order)):
+                    r = yield ("callv", clo, [Ptr(("static", cells[i])), Ptr(("static", cells[order[j]]))])
+                    less = yield ("branch", r.discr == bv(ORD["Less"]))
+                    if less:
+                        pos = j
+                        break
+                order.insert(pos, i)
+            yield ("effect", lambda c_: eng.store_ptr(c_, vp, MS.lvec(tuple(elems[i] for i in order))))
+            return UNIT
+        return Script(script)
+
+    def pref(p, s):
+        return z3.And(*[a == b for a, b in zip(p, s)]) if len(p) <= len(s) else z3.BoolVal(False)
+
+    def suff(p, s):
+        return z3.And(*[a == b for a, b in zip(p, s[len(s) - len(p):])]) if len(p) <= len(s) else z3.BoolVal(False)
+    for plens in ((1, 2), (2, 1), (2, 2)):
+        for order in (0, 1):
+            k1, k2 = z3.BitVec("kind1", 64), z3.BitVec("kind2", 64)
+            p1 = [z3.BitVec(f"pat1_{i}", 32) for i in range(plens[0])]
+            p2 = [z3.BitVec(f"pat2_{i}", 32) for i in range(plens[1])]
+            nm = [z3.BitVec(f"name_{i}", 32) for i in range(3)]
+            has_global = z3.Bool("global_buckets")
+            base = [z3.ULT(k1, bv(3)), z3.ULT(k2, bv(3))]
+            # the overrides come from a HashMap: the two matchers differ
+            base.append(z3.Or(k1 != k2, z3.Not(MS.text_eq(tuple(p1), tuple(p2))) if len(p1) == len(p2) else z3.BoolVal(True)))
+            mat = lambda k, p: Enum(k, {i: Agg({0: MS.sstr(tuple(p))}) for i in range(3)}, "Matcher")
+            e1 = Agg({0: mat(k1, p1), 1: Native("buckets", 1)})
+            e2 = Agg({0: mat(k2, p2), 1: Native("buckets", 2)})
+            hm = MS.lvec((e1, e2) if order == 0 else (e2, e1))
+            m = {r"^Arc::new$": models.m_identity, r"as IntoIterator>::into_iter$": lambda eng, ctx, f, path, args, dty: (Native("liter", (tuple(Ptr(("static", MC.new_cell(ctx, x, "ovr"))) for x in MC.load(eng, ctx, args[0]).data), 0))
+                                                                                         if path.strip().startswith("<&") else Native("liter", (MC.load(eng, ctx, args[0]).data, 0))),
+                 r"as Iterator>::collect$": lambda eng, ctx, f, path, args, dty: MS.lvec(MC.load(eng, ctx, args[0]).data[0]),
+                 r"as Deref(Mut)?>::deref(_mut)?$": lambda eng, ctx, f, path, args, dty: args[0] if isinstance(args[0], Ptr) and not isinstance(eng.load_ptr(ctx, args[0]), Ptr) else MC.load(eng, ctx, args[0]),
+                 r"sort_by$": m_sort_by, r"^<Matcher as Ord>::cmp$": m_matcher_cmp, r"^<String as Ord>::cmp$|^<str as Ord>::cmp$": m_string_cmp, r"^<isize as Ord>::cmp$": m_isize_cmp,
+                 r"^core::str::(.*::)?starts_with$": lambda eng, ctx, f, path, args, dty: pref(MS.as_items(eng, ctx, args[1]), MS.as_items(eng, ctx, args[0])),
+                 r"^core::str::(.*::)?ends_with$": lambda eng, ctx, f, path, args, dty: suff(MS.as_items(eng, ctx, args[1]), MS.as_items(eng, ctx, args[0])),
+                 r"as PartialEq>::eq$": lambda eng, ctx, f, path, args, dty: MS.text_eq(MS.as_items(eng, ctx, args[0]), MS.as_items(eng, ctx, args[1])),
+                 r"Distribution::new_histogram$": lambda eng, ctx, f, path, args, dty: Native("dist", ("histogram", MC.load(eng, ctx, args[0]).data)),
+                 r"Distribution::new_summary$": lambda *a: Native("dist", ("summary", 0)),
+                 r"^core::slice::(.*::)?iter$": lambda eng, ctx, f, path, args, dty: Native("liter", (tuple(Ptr(("static", MC.new_cell(ctx, x, "ovr"))) for x in MC.load(eng, ctx, args[0]).data), 0)),
+                 r"^Duration::from_secs$|NonZero.*::new$|^NonZero::new$|Option::unwrap$": lambda *a: Opaque("const"),
+                 r"as Iterator>::next$": MS.m_next, r"as Clone>::clone$": lambda eng, ctx, f, path, args, dty: MC.load(eng, ctx, args[0])}
+            m.update(models.BASE)
+            eng = sym.Engine(P, models=m, loop_bound=5, max_paths=5000)
+            eng.merging = False
+            eng.const_override = {"DEFAULT_SUMMARY_BUCKET_COUNT": Opaque("count"), "DEFAULT_SUMMARY_BUCKET_DURATION": Opaque("duration")}
+            ctx0 = sym.Ctx(eng, 1)
+            gb = Enum(z3.If(has_global, bv(1), bv(0)), {1: Agg({0: Native("buckets", 0)})}, "Option")
+
+            def script():
+                db = yield ("call", new_b, [Opaque("quantiles"), Enum(0, {}, "Option"), gb, Enum(0, {}, "Option"), Enum(1, {1: Agg({0: hm})}, "Option")])
+                yield ("setstatic", "db", db)
+                d = yield ("call", get_b, [Ptr(("static", "db")), MS.sstr(tuple(nm))])
+                t = yield ("call", ty_b, [Ptr(("static", "db")), MS.sstr(tuple(nm))])
+                return Agg({0: d, 1: t})
+            leaves = eng.run_script(1, "DistributionBuilder", script, ctx0=ctx0)
+            e3.absorb(eng)
+            done = [l for l in leaves if l.status == "done"]
+            other = z3.Or(*[l.taken() for l in leaves if l.status != "done"] or [z3.BoolVal(False)])
+
+            def matches(k, p):
+                return z3.If(k == bv(mk.index("Full")), MS.text_eq(tuple(p), tuple(nm)) if len(p) == len(nm) else z3.BoolVal(False),
+                             z3.If(k == bv(mk.index("Prefix")), pref(p, nm), suff(p, nm)))
+            rank = lambda k: z3.If(k == bv(mk.index("Full")), 0, z3.If(k == bv(mk.index("Prefix")), 1, 2))
+            m1, m2 = matches(k1, p1), matches(k2, p2)
+            # reference: full > prefix > suffix; two matching overrides of the same kind: either (unspecified)
+            want1 = z3.And(m1, z3.Or(z3.Not(m2), rank(k1) < rank(k2)))
+            want2 = z3.And(m2, z3.Or(z3.Not(m1), rank(k2) < rank(k1)))
+            tie = z3.And(m1, m2, rank(k1) == rank(k2))
+            bad, badty = [], []
+            for l in done:
+                d, t = l.ret.f[0], l.ret.f[1]
+                if not (isinstance(d, Native) and d.kind == "dist"):
+                    bad.append(l.taken())
+                    continue
+                kind, bid = d.data
+                got1, got2, gotg, gots = (kind == "histogram" and bid == 1), (kind == "histogram" and bid == 2), (kind == "histogram" and bid == 0), kind == "summary"
+                ok = z3.Or(z3.And(want1, z3.BoolVal(got1)), z3.And(want2, z3.BoolVal(got2)), z3.And(tie, z3.BoolVal(got1 or got2)),
+                           z3.And(z3.Not(m1), z3.Not(m2), has_global, z3.BoolVal(gotg)), z3.And(z3.Not(m1), z3.Not(m2), z3.Not(has_global), z3.BoolVal(gots)))
+                bad.append(z3.And(l.taken(), z3.Not(ok)))
+                titems = MS.as_items(eng, None, t) if isinstance(t, Native) else None
+                tstr = "".join(chr(x.as_long()) for x in titems) if titems is not None and all(z3.is_bv_value(x) for x in titems) else None
+                badty.append(z3.And(l.taken(), z3.BoolVal(tstr != ("histogram" if kind == "histogram" else "summary"))))
+            cname = f"c15_precedence_p{plens[0]}{plens[1]}_o{order}"
+            bounds = (f"DistributionBuilder::new with two overrides (kinds symbolic, patterns of {plens[0]} and {plens[1]} characters, map iteration order {order}), global buckets present or not; "
+                      f"get_distribution / get_distribution_type of a 3-character name; {len(done)} paths")
+            specs = [dict(name=f"{cname}:witness", desc="completes", bounds=bounds, cons=base + [z3.Or(*[l.taken() for l in done] or [z3.BoolVal(False)])], expect_unsat=False),
+                     dict(name=f"{cname}:returns", desc="panics or exceeds a loop bound", bounds=bounds, cons=base + [other], expect_unsat=True),
+                     dict(name=f"{cname}:full_then_prefix_then_suffix_then_global", desc="the buckets chosen for the name are not those of the matching override with the highest precedence (full name, then prefix, then suffix), "
+                          "then the global buckets, and otherwise a summary", bounds=bounds, cons=base + [z3.Or(*bad or [z3.BoolVal(False)])], expect_unsat=True),
+                     dict(name=f"{cname}:type_string_agrees_with_distribution", desc="the TYPE string for the name disagrees with the kind of distribution built for it", bounds=bounds,
+                          cons=base + [z3.Or(*badty or [z3.BoolVal(False)])], expect_unsat=True)]
+            check.discharge_many(e3.res, specs, 120)
 
 
 def run(tier, seed, t0):
-    _kprop.run_kani("C15", tier, seed, t0, [("util", HARNESSES, dict(hooks=True))], ASSUME, FUNCS,
-                    "Kani harnesses over metrics_util::storage::Histogram with symbolic bounds and samples")
+    import _e3
+    from mirsmt import sym
+    e3 = _e3.E3("C15")
+    try:
+        precedence(e3)
+    except (sym.Unsupported, KeyError, IndexError) as ex:
+        e3.error("c15_precedence", "MIR->SMT encoding of DistributionBuilder", ex)
+    obs = list(e3.res.obligations)
+    obs += kani.run_group("util", HARNESSES, tier, hooks=True)
+    finish("C15", tier, seed, obs, t0, ASSUME + ASSUME_E3 + ["E3 callee models: " + ", ".join(sorted(e3.models))], FUNCS + sorted(e3.functions),
+           explanation="Kani harnesses over metrics_util::storage::Histogram + MIR->SMT encoding of the override precedence of DistributionBuilder")
 
 
 def replay(path):
